@@ -158,6 +158,7 @@ T["T4"] = (doc(
     + cont("L2A", ["E4"], "L1A", CMP("B4", "7", "&lt;="))                                   # criteria on user data
     + cont("L2B", ["H8"], "L1A", CMP("B4", "7", "&gt;="))                                   # overlaps with L2A at B4 == 7: ambiguous
     + cont("L2C", ["E4", "H8"], "L1B", "<xtce:BooleanExpression>" + COND("C8", "==", v="200", lcal="false") + "</xtce:BooleanExpression>")
+    + cont("L2D", ["J4"], "L1B", CMP("C8", "199", "&gt;"))                                  # overlaps with L2C at C8 == 200: ambiguity under a CONCRETE parent
     + cont("L3A", ["C8"], "L2A", CMP("E4", "15", "!="), abstract="true")                    # abstract with one conditional child: dead end possible
     + cont("L4A", ["D6"], "L3A", CMP("C8", "0"))),
     6 + 3, "many shapes; lengths vary per branch")
